@@ -83,6 +83,11 @@ pub struct NtsPoolCase {
     /// resolver answers for the NTP server name `w_ntsked::NTP_NAMES[i]` (lookup k gets `hosts[i][k % len]`)
     pub hosts: Vec<Vec<NDns>>,
     pub ops: Vec<Op>,
+    /// SRV mode (`enable-srv-resolution = true`) when not empty: the key-exchange servers the SRV lookup of the
+    /// pool name yields, as (index into `w_ntsked::KE_NAMES`, reachable), handed to the spawner cyclically
+    /// through the hook in place of the resolver (hickory needs a DNS server)
+    #[serde(default)]
+    pub srv: Vec<(u8, bool)>,
 }
 
 /// Untagged: replay files written before the NTS variant existed are plain pool cases (`answers`/`ignore`
@@ -237,6 +242,7 @@ impl Property for C35 {
                 ke: vec![ok(vec![Srv::Name(0), Srv::Name(1), Srv::Name(2), Srv::Name(3)])],
                 hosts: one_to_one.clone(),
                 ops: vec![Op::Spawn, Op::Remove { which: 1, reason: 0 }, Op::Spawn, ra(false), Op::Spawn, Op::Spawn],
+                srv: vec![],
             },
             // a KE server that ignores the denied list and keeps naming the same server
             NtsPoolCase {
@@ -246,6 +252,7 @@ impl Property for C35 {
                 ke: vec![ok(vec![Srv::Name(0)]), ok(vec![Srv::Name(0)]), ok(vec![Srv::Name(1)])],
                 hosts: one_to_one.clone(),
                 ops: vec![Op::Spawn, Op::Spawn, Op::Remove { which: 0, reason: 1 }, Op::Spawn, Op::Spawn],
+                srv: vec![],
             },
             // two different names for one and the same server address
             NtsPoolCase {
@@ -255,6 +262,27 @@ impl Property for C35 {
                 ke: vec![ok(vec![Srv::Name(0), Srv::Name(1)])],
                 hosts: vec![vec![NDns::Addrs(vec![2])], vec![NDns::Addrs(vec![2])]],
                 ops: vec![Op::Spawn, Op::Spawn],
+                srv: vec![],
+            },
+            // SRV mode: three key-exchange servers, each the NTP server itself; one of them is listed twice
+            NtsPoolCase {
+                count: 3,
+                honor_deny: true,
+                ke_dns: vec![KeDns::Listen],
+                ke: vec![ok(vec![Srv::Absent])],
+                hosts: one_to_one.clone(),
+                ops: vec![Op::Spawn, Op::Spawn, Op::Remove { which: 0, reason: 1 }, Op::Spawn, Op::Spawn],
+                srv: vec![(0, true), (0, true), (1, true), (2, false), (2, true)],
+            },
+            // SRV mode: every key-exchange server announces a differently named NTP server
+            NtsPoolCase {
+                count: 2,
+                honor_deny: true,
+                ke_dns: vec![KeDns::Listen],
+                ke: vec![ok(vec![Srv::Name(1), Srv::Name(2)])],
+                hosts: one_to_one.clone(),
+                ops: vec![Op::Spawn, Op::Spawn, Op::Spawn],
+                srv: vec![(0, true), (0, true), (3, true)],
             },
         ];
         plain.into_iter().map(Case::Plain).chain(nts.into_iter().map(Case::NtsPool)).collect()
@@ -473,7 +501,15 @@ fn nts_pool_strategy(tier: Tier) -> impl Strategy<Value = NtsPoolCase> {
             hosts_strategy(alias_free),
             prop::collection::vec(op_strategy(), 0..max_ops),
         )
-            .prop_map(|(count, honor_deny, ke_dns, ke, hosts, ops)| NtsPoolCase { count, honor_deny, ke_dns, ke, hosts, ops })
+            .prop_map(|(count, honor_deny, ke_dns, ke, hosts, ops)| NtsPoolCase { count, honor_deny, ke_dns, ke, hosts, ops, srv: vec![] })
+    })
+    .prop_flat_map(|c| {
+        // one NTS pool case in three runs in SRV mode
+        (Just(c), prop_oneof![2 => Just(Vec::new()).boxed(), 1 => prop::collection::vec((0u8..4, prop_oneof![6 => Just(true), 1 => Just(false)]), 1..6).boxed()])
+    })
+    .prop_map(|(mut c, srv)| {
+        c.srv = srv;
+        c
     })
 }
 
@@ -509,9 +545,17 @@ async fn run_nts(case: &NtsPoolCase) -> Outcome {
             std::process::exit(2);
         }
     };
+    let srv_mode = !case.srv.is_empty();
+    labels.add_if(srv_mode, "nts-pool-srv");
+    if srv_mode {
+        // the SRV targets double as NTP servers when a key exchange names no other server
+        for (i, name) in w_ntsked::KE_NAMES.iter().enumerate() {
+            w_dns::script(name, vec![Answer::Addrs(vec![IpAddr::V4(std::net::Ipv4Addr::new(127, 0, 1, 1 + i as u8))])]);
+        }
+    }
     let cfg = sh::NtsPoolSourceConfig {
         addr: sh::NtsKeAddress(sh::normalized_address(w_ntsked::KE_HOST, server.port)),
-        enable_srv_resolution: false,
+        enable_srv_resolution: srv_mode,
         certificate_authorities: w_ntsked::test_cas(),
         count: case.count,
         ntp_version: ProtocolVersion::V4,
@@ -520,6 +564,22 @@ async fn run_nts(case: &NtsPoolCase) -> Outcome {
         Ok(p) => w_ntsked::Spin { inner: p },
         Err(e) => return Outcome::fail("nts-pool/spawner-config-rejected", format!("NtsPoolSpawner::new: {e}")),
     };
+
+    // SRV mode: keep the spawner's list of resolved key-exchange servers filled, so that it never asks the resolver
+    let mut srv_next = 0usize;
+    let mut top_up = |pool: &mut w_ntsked::Spin<sh::NtsPoolSpawner>| {
+        while srv_mode && sh::nts_pool_hook::known_resolutions_left(&pool.inner) < 64 {
+            let (k, alive) = case.srv[srv_next % case.srv.len()];
+            srv_next += 1;
+            let ip = if alive { w_ntsked::LISTEN_IP } else { w_ntsked::DEAD_IP };
+            sh::nts_pool_hook::push_known_resolution(
+                &mut pool.inner,
+                SocketAddr::new(ip, server.port),
+                Some(w_ntsked::KE_NAMES[k as usize % w_ntsked::KE_NAMES.len()].to_string()),
+            );
+        }
+    };
+    top_up(&mut pool);
 
     let mut active: Vec<NtsActive> = Vec::new();
     let mut created = 0usize;
@@ -537,6 +597,7 @@ async fn run_nts(case: &NtsPoolCase) -> Outcome {
                     continue;
                 }
                 spawn_rounds += 1;
+                top_up(&mut pool);
                 let ex_before = server.accepted();
                 match tokio::time::timeout(round_limit, pool.try_spawn(&tx)).await {
                     Ok(Ok(())) => {}
@@ -569,7 +630,10 @@ async fn run_nts(case: &NtsPoolCase) -> Outcome {
                     match &ex.reply {
                         Reply::Responded { server: s, .. } => {
                             if next == ex.probe + 1 {
-                                names.push(s.clone().unwrap_or_else(|| w_ntsked::KE_HOST.to_string()));
+                                // the pool tells its members apart by the SRV target they came from, and by the
+                                // server name of the key exchange when the connection did not come from an SRV record
+                                let via_srv = ex.sni.as_ref().filter(|n| w_ntsked::KE_NAMES.contains(&n.as_str())).cloned();
+                                names.push(via_srv.unwrap_or_else(|| s.clone().unwrap_or_else(|| w_ntsked::KE_HOST.to_string())));
                             }
                         }
                         Reply::Error(_) => labels.add("ke-error-record"),
